@@ -2,14 +2,14 @@
    Statements only; every proof is `exact <lemma>`; assumptions are printed.
    dec_update is the REPAIRED generation of the decoder (Model_Update, fixed = true: proposed repairs R1-R6),
    dec_update_pinned / merge_pinned the pinned tree.  Spec_Wire is the RFC reference.
-   Proved for ALL byte strings: the attribute part of the agreement with the reference for the scalar and the
-   unrecognised attributes (TLV walk, any order, extended length, Partial bit), End-of-RIB recognition, the
-   RFC 6793 merge.  The NLRI sections, MP_REACH/MP_UNREACH framing, AS path syntax and LARGE_COMMUNITY
-   de-duplication are tied by the correspondence (harness/c02.py: implementation = model = Spec_Wire.ref_update
-   evaluated in Coq = content owned by the generator); one prefix NLRI is C15. *)
+   Proved for ALL byte strings: agreement with the reference on the whole UPDATE body for sessions of the unicast,
+   multicast and labelled IP families (C02_agrees_with_reference), End-of-RIB recognition, the RFC 6793 merge.
+   The mpls-vpn families (route distinguisher in the next hop) and the five abstracted attribute types are tied by
+   the correspondence (harness/c02.py: implementation = model = Spec_Wire.ref_update evaluated in Coq = content
+   owned by the generator); the syntax of one prefix NLRI is C15. *)
 From Coq Require Import ZArith Bool List.
 From ExaV Require Import gen.Gen_AttrTable gen.Gen_NlriRegistry model.Model_Nlri model.Model_Update spec.Spec_Wire
-  proofs.Proofs_Nlri proofs.Proofs_Update.
+  proofs.Proofs_Nlri proofs.Proofs_Update proofs.Proofs_Update2 proofs.Proofs_Update3.
 Import ListNotations.
 Open Scope Z_scope.
 
@@ -26,6 +26,27 @@ Theorem C02_agrees_with_reference_attributes : forall opq s other ab l,
   forallb (attr_wellformed other (rs_of s)) l = true -> nodup_codes l = true -> forallb simple l = true ->
   exists m, unpack_attrs true opq s ab = POk m /\ map entry_of m = flat_map (attr_entry (rs_of s)) l.
 Proof. exact attributes_agree. Qed.
+
+(* ---- agreement with the reference decoder, WHOLE UPDATE BODY.
+   s: any session whose negotiated families are among ipv4/ipv6 unicast, multicast, nlri-mpls (plain_sess), with or
+   without ADD-PATH per family, 2- or 4-octet AS numbers, with or without the RFC 8950 extended next hop per family;
+   b: any byte string of bytes; no attribute of its block is one of the five abstracted types PMSI, TUNNEL_ENCAP, AIGP,
+   BGP-LS, PREFIX_SID (modelled); the reference decoder (RFC 4271 4.3 sections and TLVs, RFC 7606 well-formedness of
+   every attribute, no duplicate, RFC 4760 MP_REACH / MP_UNREACH framing with the next hop length table incl.
+   RFC 8950, RFC 6793 reconstruction, RFC 8092 de-duplication, RFC 4724 End-of-RIB; prefix syntax = Model_Nlri, C15)
+   accepts b with content r.  Then the decoder raises nothing and reports exactly r: the same End-of-RIB family, or
+   the same announced routes each with the same next hop, the same withdrawn routes, and the same attribute list
+   (AS_PATH / AS4_PATH merged, MP attributes consumed) - lists equal element by element, in order. *)
+Theorem C02_agrees_with_reference : forall opq s other b r,
+  plain_sess s -> wfb b ->
+  (forall wb ab nb l, sections b = Some (wb, ab, nb) -> tlvs (length ab) ab = Some l -> forallb modelled l = true) ->
+  ref_update_gen unpack_nlri other (rs_of s) b = Some r ->
+  match r with
+  | REor a sf => dec_update opq s b = EndOfRib a sf
+  | RUpdate u => exists u', dec_update opq s b = Decoded u' /\ u_ann u' = ru_announced u /\ u_wd u' = ru_withdrawn u
+                            /\ map entry_of (u_attrs u') = ru_attrs u
+  end.
+Proof. exact agrees_with_reference. Qed.
 
 (* ---- End-of-RIB: the RFC 4724 markers are recognised for their family ... *)
 Theorem C02_eor_v4 : forall opq s, dec_update opq s [0;0;0;0] = EndOfRib 1 1.
@@ -72,6 +93,7 @@ Example C02_example :
 Proof. exact eor_third_path. Qed.
 
 Print Assumptions C02_agrees_with_reference_attributes.
+Print Assumptions C02_agrees_with_reference.
 Print Assumptions C02_eor_v4.
 Print Assumptions C02_eor_mp.
 Print Assumptions C02_eor_only.
